@@ -60,7 +60,8 @@ var exoticNamePool = []string{"é", "日", "\U0001F600", "n.m", "k:1", "2", "a1"
 var cmdNamePool = []string{"log", "show", "run", "sub", "list", "add", "rm", "x", "ver", "get", "put", "o", "verbose", "help2"}
 var envNamePool = []string{"VERIF_E1", "VERIF_E2", "VERIF_E3", "VERIF_E4"}
 
-var wordPool = []string{"foo", "bar", "hello", "a", "b", "x", "log", "show", "sub", "list", "v", "verbose", "1", "42", "word", "a b", "help"}
+var wordPool = []string{"foo", "bar", "hello", "a", "b", "x", "log", "show", "sub", "list", "v", "verbose", "1", "42", "word", "a b", "help",
+	"'v'", "'5'", "'1.5'", "\"q\"", "100%", "%d", "%s%v"}
 var intPool = []string{"0", "1", "-1", "42", "+7", "007", "-0", "9223372036854775807", "-9223372036854775808",
 	"9223372036854775808", "-9223372036854775809", "123456789012345678901234567890"}
 var badIntPool = []string{"", "+", "-", "1_0", "0x10", "1e3", " 1", "1 ", "１", "abc", "1.5", "--1", "1..", "0b1", "٣"}
@@ -115,7 +116,7 @@ func (g *Gen) genOpt(used map[string]bool) OptDef {
 	}
 	o.DefBool = g.pct(30)
 	o.DefInt = []int{0, 0, 1, -5, 42}[g.r.Intn(5)]
-	o.DefStr = []string{"", "", "def", "d e", "-x"}[g.r.Intn(5)]
+	o.DefStr = []string{"", "", "def", "d e", "-x", "%d%"}[g.r.Intn(6)]
 	o.DefFloat = []float64{0, 0, 1.5, -2.25}[g.r.Intn(4)]
 	o.Min = 1
 	o.Max = 1
@@ -127,7 +128,7 @@ func (g *Gen) genOpt(used map[string]bool) OptDef {
 		o.Required = true
 		if g.pct(50) {
 			o.HasReqMsg = true
-			o.ReqMsg = []string{"please give it", "", "custom: é"}[g.r.Intn(3)]
+			o.ReqMsg = []string{"please give it", "", "custom: é", "need 100% of it", "use %d style %"}[g.r.Intn(5)]
 		}
 	}
 	if g.pct(g.PEnv) {
@@ -157,7 +158,7 @@ func (g *Gen) genOpt(used map[string]bool) OptDef {
 		o.SetCalled = 1 + g.r.Intn(4)
 	}
 	if g.pct(30) {
-		o.Desc = []string{"a description", "multi\nline description", "é description"}[g.r.Intn(3)]
+		o.Desc = []string{"a description", "multi\nline description", "é description", "uses 100% of %s"}[g.r.Intn(4)]
 	}
 	if g.pct(15) {
 		o.ArgName = []string{"file", "n", "k=v"}[g.r.Intn(3)]
@@ -177,7 +178,7 @@ func copyUsed(m map[string]bool) map[string]bool {
 func (g *Gen) genCmd(name string, depth int, usedOpts map[string]bool, reserved map[string]bool) *CmdDef {
 	c := &CmdDef{Name: name, UnknownMode: g.pickInt(g.UModes)}
 	if g.pct(40) {
-		c.Desc = []string{"does things", "line1\nline2", "é"}[g.r.Intn(3)]
+		c.Desc = []string{"does things", "line1\nline2", "é", "50% done %v"}[g.r.Intn(4)]
 	}
 	c.RequireOrder = g.pct(g.PRequireOrder)
 	c.SettingsLate = g.pct(g.PSettingsLate)
@@ -228,6 +229,15 @@ func (g *Gen) genCmd(name string, depth int, usedOpts map[string]bool, reserved 
 			all := copyUsed(usedOpts)
 			collectOptNames(c, all)
 			c.LateOpts = append(c.LateOpts, g.genOpt(all))
+			if g.pct(15) {
+				// the late option takes the name of an option one of the commands declared itself: when
+				// it is copied down it shadows that option's name there (the aliases keep pointing to
+				// the command's own option)
+				sub := c.Cmds[g.r.Intn(len(c.Cmds))]
+				if len(sub.Opts) > 0 {
+					c.LateOpts[0].Name = sub.Opts[g.r.Intn(len(sub.Opts))].Name
+				}
+			}
 			usedOpts[c.LateOpts[0].Name] = true
 			for _, a := range c.LateOpts[0].Aliases {
 				usedOpts[a] = true
@@ -280,7 +290,7 @@ func (g *Gen) GenProg() *ProgDef {
 	// unset / empty / valid / invalid for the type / padded with white space (must be taken verbatim:
 	// " 42" is not an int, "true " is not a bool, " " is a set variable) / mixed case
 	envTexts := []string{"true", "false", "TRUE", "False", "tRuE", "yes", "1", "42", "-3", "+5", "abc", "1.5", "1e3", "0x10", "x y", "",
-		" 42", "42 ", " true", "false\n", "\t", " ", "  x  ", "Prod-EU", "a=b", "--x", "nan", "-"}
+		" 42", "42 ", " true", "false\n", "\t", " ", "  x  ", "Prod-EU", "a=b", "--x", "nan", "-", "1e999", "-1e400", "'5'", "50%"}
 	for _, e := range envNamePool {
 		if g.pct(50) {
 			p.Env[e] = g.pick(envTexts)
